@@ -21,6 +21,8 @@ pub enum Step {
     Writer(TxScript),
     /// a write transaction during which (after its last operation, before its commit / drop) a reader opens
     WriterWithReaderInFlight(TxScript),
+    /// the built-in consistency check (it opens a read-only transaction of its own) while readers are open
+    Check,
 }
 
 #[derive(Clone, Debug, Serialize, Deserialize)]
@@ -50,6 +52,7 @@ pub struct St {
     pub pages_rewritten_below_hwm: u64,
     pub pages_rewritten_while_reader_open: u64,
     pub max_reader_age_commits: u64,
+    pub check_calls: u64,
     pub readers_opened: u64,
     pub readers_sharing_a_snapshot: u64,
     pub readers_opened_while_a_writer_was_in_flight: u64,
@@ -92,6 +95,8 @@ pub fn gen_case(rng: &mut Rng, ps: u64, steps: usize, k: usize) -> Case {
         if c < 22 && open < k {
             out.push(Step::OpenReader);
             open += 1;
+        } else if c >= 96 {
+            out.push(Step::Check);
         } else if c < 40 && open > 0 {
             out.push(Step::CloseReader(rng.usize(open)));
             open -= 1;
@@ -117,6 +122,58 @@ pub fn gen_case(rng: &mut Rng, ps: u64, steps: usize, k: usize) -> Case {
         steps: out,
         origin: format!("profile={} k={}", crate::gen::profile_name(profile), k),
     }
+}
+
+/// A reader that stays open across several dozen commits while younger readers come and go: A opens,
+/// `before_b` commits, B opens, commits until A has seen `a_age` of them, A closes (the OLDEST first),
+/// a third reader opens, a dozen more commits, DB::check() now and then.
+pub fn gen_long_lived_case(rng: &mut Rng, ps: u64, a_age: usize, before_b: usize) -> Case {
+    let mut g = GenCfg::default_for(ps, 1);
+    g.ops_per_tx = (2, 8);
+    g.p_rollback = 0;
+    g.p_reopen = 0;
+    g.p_misuse = 0;
+    g.max_value = ps as usize / 2;
+    let mut grng = rng.fork();
+    let mut gen = Gen::new(&mut grng, g);
+    let mut committed = MBucket::default();
+    let mut out = Vec::new();
+    let mut tx_index = 0;
+    let mut writer = |out: &mut Vec<Step>, committed: &mut MBucket| {
+        let mut work = committed.clone();
+        let mut script = gen.tx_script(&mut work, tx_index);
+        script.reopen = false;
+        script.end = End::Commit;
+        tx_index += 1;
+        *committed = work;
+        out.push(Step::Writer(script));
+    };
+    for _ in 0..3 {
+        writer(&mut out, &mut committed);
+    }
+    out.push(Step::OpenReader); // A = reader 0
+    for i in 0..a_age {
+        if i == before_b {
+            out.push(Step::OpenReader); // B = reader 1
+        }
+        if i % 11 == 7 {
+            out.push(Step::Check);
+        }
+        writer(&mut out, &mut committed);
+    }
+    out.push(Step::CloseReader(0)); // the oldest closes first
+    out.push(Step::OpenReader); // C
+    for i in 0..12 {
+        if i == 5 {
+            out.push(Step::Check);
+        }
+        writer(&mut out, &mut committed);
+    }
+    out.push(Step::CloseReader(0)); // B
+    for _ in 0..3 {
+        writer(&mut out, &mut committed);
+    }
+    Case { pagesize: ps, num_pages: 8192, steps: out, origin: format!("long-lived reader: the oldest reader sees {} commits, a second one opens after {}", a_age, before_b) }
 }
 
 /// returns Err(description) for an inconclusive run
@@ -161,6 +218,12 @@ pub fn run_case(c: &Case, path: &std::path::Path, st: &mut St) -> Result<Vec<(St
                     readers.borrow_mut().push(Reader { tx, snap: committed.clone(), pinned, born: n_commits });
                     st.readers_opened += 1;
                     st.max_readers = st.max_readers.max(readers.borrow().len() as u64);
+                }
+                Step::Check => {
+                    st.check_calls += 1;
+                    if let Err(e) = db.check() {
+                        viol.push(("db-check-fails-while-readers-are-open".into(), format!("step {}: DB::check() with {} reader(s) open: {}", si, readers.borrow().len(), e)));
+                    }
                 }
                 Step::CloseReader(i) => {
                     if *i < readers.borrow().len() {
@@ -320,6 +383,11 @@ pub fn run(ctx: &Ctx) -> Shard {
             let k = 1 + rng.usize(4);
             cases.push(gen_case(&mut rng, ps, steps, k));
         }
+        // directed: one reader that lives through 30..48 commits (one case per worker in quick, six in thorough)
+        for j in 0..(if ctx.thorough() { 6 } else { 1 }) {
+            let a_age = 30 + ((ctx.shard as usize + 5 * j) % 19);
+            cases.push(gen_long_lived_case(&mut rng, 1024, a_age, 2 + (ctx.shard as usize + j) % 12));
+        }
     }
     for c in &cases {
         let path = scratch.fresh("c3");
@@ -352,6 +420,7 @@ pub fn run(ctx: &Ctx) -> Shard {
                     Step::CloseReader(i) => format!("close-reader#{}", i),
                     Step::Writer(t) => format!("writer({} ops,{:?})", t.ops.len(), t.end),
                     Step::WriterWithReaderInFlight(t) => format!("writer({} ops,{:?})+reader-opens-before-it-ends", t.ops.len(), t.end),
+                    Step::Check => "db.check()".to_string(),
                 })
                 .collect();
             shard.sample(serde_json::json!({"origin": c.origin, "pagesize": c.pagesize, "first_steps": kinds}));
@@ -361,6 +430,7 @@ pub fn run(ctx: &Ctx) -> Shard {
     shard.count("max_simultaneous_readers", 0);
     shard.count("max_readers", st.max_readers);
     shard.count("max_reader_age_in_commits", st.max_reader_age_commits);
+    shard.count("db_check_calls_while_readers_were_open", st.check_calls);
     shard.count("readers_opened", st.readers_opened);
     shard.count("readers_sharing_a_snapshot_with_another", st.readers_sharing_a_snapshot);
     shard.count("readers_opened_while_a_writer_was_in_flight", st.readers_opened_while_a_writer_was_in_flight);
